@@ -32,5 +32,6 @@ BinRow(a, b) ==
    compat |-> Compatible(a, b), un |-> PairSeq(Union_(a, b))]
 ASSUME LawInverseInverse(S) /\ LawInverseCompose(S) /\ LawUnionCompat(PS) /\ LawIdentity(S)
 ASSUME LawAssoc(PS)
+ASSUME LawFromSeq(S)
 ASSUME \A a \in PMaps : PrintT("SMBIN " \o ToJson([rows |-> SetToSeq({BinRow(a, b) : b \in PMaps})]))
 =============================================================================
